@@ -42,6 +42,7 @@ type stats struct {
 	RangeSites []string       `json:"map_range_sites"`
 	Globals    []string       `json:"package_level_variables_registered"`
 	GoStmts    int            `json:"go_statements_rewritten"`
+	SyncPoints int            `json:"fileset_method_calls_hooked"`
 }
 
 func main() {
@@ -140,6 +141,7 @@ type touch struct {
 	expr  ast.Expr // argument identifying the location
 	write bool
 	name  string
+	sync  bool // a vsched.SyncPoint (operation on an internally synchronised object) instead of a Touch
 }
 
 func instrumentFile(p *packages.Package, f *ast.File, st *stats) bool {
@@ -183,7 +185,7 @@ func instrumentFile(p *packages.Package, f *ast.File, st *stats) bool {
 		if s == nil {
 			return
 		}
-		key := t.name + fmt.Sprint(t.write)
+		key := t.name + fmt.Sprint(t.write, t.sync)
 		if seen[s] == nil {
 			seen[s] = map[string]bool{}
 		}
@@ -283,6 +285,14 @@ func instrumentFile(p *packages.Package, f *ast.File, st *stats) bool {
 					}
 				}
 			}
+		case *ast.CallExpr:
+			// a method call on a *token.FileSet: an internally synchronised object that may be shared
+			// through a package-level variable (vsched decides at run time whether this one is)
+			if se, ok := x.Fun.(*ast.SelectorExpr); ok && simpleExpr(se.X) {
+				if tv, ok := info.Types[se.X]; ok && tv.Type.String() == "*go/token.FileSet" {
+					add(listStmtOf(), touch{expr: se.X, sync: true, name: "token.FileSet." + se.Sel.Name})
+				}
+			}
 		case *ast.Ident:
 			obj := info.Uses[x]
 			if obj == nil {
@@ -353,6 +363,14 @@ func instrumentFile(p *packages.Package, f *ast.File, st *stats) bool {
 				for _, t := range inserts[s] {
 					st.Touches++
 					st.TouchNames[t.name]++
+					if t.sync {
+						st.SyncPoints++
+						out = append(out, &ast.ExprStmt{X: &ast.CallExpr{
+							Fun:  &ast.SelectorExpr{X: ast.NewIdent("vsched_"), Sel: ast.NewIdent("SyncPoint")},
+							Args: []ast.Expr{t.expr, &ast.BasicLit{Kind: token.STRING, Value: strconv.Quote(t.name)}},
+						}})
+						continue
+					}
 					out = append(out, &ast.ExprStmt{X: &ast.CallExpr{
 						Fun:  &ast.SelectorExpr{X: ast.NewIdent("vsched_"), Sel: ast.NewIdent("Touch")},
 						Args: []ast.Expr{t.expr, ast.NewIdent(fmt.Sprint(t.write)), &ast.BasicLit{Kind: token.STRING, Value: strconv.Quote(t.name)}},
